@@ -17,12 +17,13 @@ PROP = dict(
                "drawn after Get returns and before Put is called). Modelled not verified: sync.Pool, bytes.Buffer "
                "(Reset empties and keeps capacity; Write appends).",
     engines=[dict(hx="pool")],
-    theorems=["C41_empty_on_get", "C41_exclusive", "C41_cap", "C41_get_enabled"],
+    theorems=["C41_empty_on_get", "C41_exclusive", "C41_cap", "C41_get_enabled",
+              "C41_release_before_reset_refuted", "C41_put_shape"],
     model_files="coq/Conc/Pool.v",
     rule="package-level pool: 8 goroutines x 120 steps; every constructor argument {0,-1,1,2,63,64,65,100,512,1024,4096} "
          "with 6 short single-goroutine histories; 150 (thorough 3000) sequential random get/write/put histories with "
          "up to 4 buffers in hand and forced GCs; 200 (thorough 4000) concurrent histories of 2..8 (thorough up to 32) "
-         "goroutines; write sizes biased to 0, small, cap-2..cap+2, above the cap.  non-trivial = the history contains "
+         "goroutines; structural: the bodies of Buffer.Put and BufferWithCap.Put read with go/ast from the source file the harness binary was built from, as statement sequences in execution order (deferred calls last), accepted only in the shape reset-then-release / guard-then-delegate that the model stands for (a use of the buffer after sync.Pool.Put, e.g. a deferred Reset, is a violation: C41_release_before_reset_refuted gives the schedule); parallel canary stress: 4 (thorough 12) runs of 0.4 s (2 s) with 16..32 goroutines each holding 2..4 buffers filled with their own id byte, checking length 0 at Get and that owned buffers keep their length and contain no foreign byte (about 4 million Gets per run); write sizes biased to 0, small, cap-2..cap+2, above the cap.  non-trivial = the history contains "
          "a reuse of a pooled buffer or an over-sized drop; distinct = distinct case lines",
     exhaustive=False,
     modelled="mempool/bufpool.go (entire file: Buffer.Get/Put, BufferWithCap.Get/Put, NewBuffer, GetBuffer/PutBuffer)",
